@@ -325,3 +325,22 @@ def main(ctx):
     rep.coverage["toy_curves"] = cover
     rep.coverage["real_curves"] = names
     return rep
+
+
+def mixed_cases(ctx):
+    from ecdsa import curves as cv
+    groups = []
+    for names in catalog.same_length_groups():
+        items = []
+        for nm in names:
+            n = int(getattr(cv, nm).order)
+            sc = prod_scalars(n)
+            for d in (sc[0], sc[-1], 5, n - 5):
+                items.append(("real-pub", dict(curve=nm, d=d)))
+                for k in (sc[1], sc[-2]):
+                    for dg in (b"\x11" * 20, b"\xff" * 66):
+                        items.append(("real", dict(curve=nm, d=d, k=k,
+                                                   digest=dg,
+                                                   allow_truncate=True)))
+        groups.append(items)
+    return groups
